@@ -288,3 +288,22 @@ def rule_option_descriptors(ctx: Ctx, rule: str, cls: Scope, program) -> None:
                   construct=construct_key(cls.qualname, 'option descriptor shares its value', st.targets[0].id))
     if not n:
         ctx.holds(rule, f'{cls.name}: no class-level data descriptor stands in for an option attribute', f'{cls.unit.rel}:{cls.lineno}')
+
+
+def mapping_with_policy(program, ctor) -> 'Optional[tuple]':
+    """(class name, bases, overridden mapping operations) when *ctor* - the expression that builds an internal table - calls a
+    class of the package that overrides a mapping operation or is no dict at all; None for a display, `dict()`, a library
+    mapping, or a package subclass that adds nothing."""
+    import ast
+    from ..load import dotted
+    if not (isinstance(ctor, ast.Call) and isinstance(ctor.func, ast.Name)):
+        return None
+    cls_ = next((c for uu in program.units.values() for c in uu.classes() if c.name == ctor.func.id), None)
+    if cls_ is None:
+        return None
+    over = sorted(m.name for m in cls_.children if m.kind == 'function' and m.name in (
+        '__setitem__', '__delitem__', 'pop', 'popitem', 'setdefault', 'update', 'clear', '__getitem__', 'get', '__contains__', '__missing__', '__iter__', '__len__'))
+    bases = [dotted(b.value if isinstance(b, ast.Subscript) else b) or '' for b in cls_.node.bases]
+    if over or not any(b.split('.')[-1] in ('dict', 'Dict', 'OrderedDict', 'WeakKeyDictionary', 'WeakKeyDict') for b in bases):
+        return cls_.name, bases, over
+    return None
